@@ -1,4 +1,5 @@
 import InTotoModel.Lemmas.VerifySpec
+import InTotoModel.Lemmas.Fuel
 import InTotoModel.Props.Scenario
 /-
   The pipeline model computes the specification `Spec/Verify.lean` - soundness *and* completeness of
@@ -198,5 +199,21 @@ theorem c15_accepted_sublayouts_are_accepted {env : Env K} {ord : Ord} (hord : o
             (subDirOf dir (st.name ++ '.' :: prefix8 e.1)) st.name with
         | none => rw [hacc] at this; cases this
         | some l => exact ⟨k, l, rfl, hacc⟩
+
+end InToto.VerifySpec
+
+namespace InToto.VerifySpec
+open InToto InToto.Verify
+
+variable {K : Type}
+
+/-- The specification's depth bound is no limit either: beyond the depth of the link directory plus one
+    it accepts the same inputs with the same summary for every bound (from the refinement theorem and
+    `verify_fuel_enough`). -/
+theorem c14_specification_depth_bound_is_no_limit (env : Env K) (path : List Str) (b : Block K) (keys : List K)
+    (dir : Dir K) (name : Str) (fuel : Nat) (hf : dir.depth + 1 ≤ fuel) (extra : Nat) :
+    accepts env (fuel + extra) path b keys dir name = accepts env fuel path b keys dir name := by
+  rw [← okPart_verify_eq_accepts env idO idO_valid, ← okPart_verify_eq_accepts env idO idO_valid,
+    verify_fuel_enough env idO idO_valid path b keys dir name fuel hf extra]
 
 end InToto.VerifySpec
